@@ -17,6 +17,13 @@ import (
 
 // C05 distribution contracts, all through the real ServeHTTP with scripted backends.
 
+func viaSuffix() string {
+	if kitViaSwitch {
+		return "-selected-at-run-time"
+	}
+	return ""
+}
+
 func c05Viol(r *vres.Report, key, what string, cost int, params interface{}) {
 	r.Violate(key, what, cost, map[string]interface{}{"engine": "H", "test": "TestVerifC05", "params": params})
 }
@@ -98,7 +105,7 @@ func c05RoundRobin(r *vres.Report, maxN int) {
 			}
 		}
 	}
-	r.AddScenario(vres.Scenario{Name: "round_robin-windows", Engine: "H", Executions: cases, States: cases, Transitions: evals, Outcomes: outs.N(),
+	r.AddScenario(vres.Scenario{Name: "round_robin-windows" + viaSuffix(), Engine: "H", Executions: cases, States: cases, Transitions: evals, Outcomes: outs.N(),
 		Bound: fmt.Sprintf("n=1..%d x every ejected subset x every warm-up offset 0..n-1; 3*|eligible|+1 requests, all windows of |eligible|", maxN), Exhaustive: true, Sample: sample,
 		Extra: map[string]interface{}{"wall_s": time.Since(start).Seconds()}})
 }
@@ -178,7 +185,7 @@ func c05WRRFresh(r *vres.Report, maxN, maxW int) {
 			}
 		}
 	}
-	r.AddScenario(vres.Scenario{Name: "weighted_round_robin-fresh", Engine: "H", Executions: cases, States: cases, Transitions: evals, Outcomes: outs.N(),
+	r.AddScenario(vres.Scenario{Name: "weighted_round_robin-fresh" + viaSuffix(), Engine: "H", Executions: cases, States: cases, Transitions: evals, Outcomes: outs.N(),
 		Bound: fmt.Sprintf("every weight vector in {0..%d, -1, -3}^n for n=1..%d; 3*sum(w) requests, every window of sum(w)", maxW, maxN), Exhaustive: true, Sample: sample,
 		Extra: map[string]interface{}{"wall_s": time.Since(start).Seconds()}})
 }
@@ -190,84 +197,127 @@ func c05LeastConn(r *vres.Report, maxN int) {
 	var sample interface{}
 	var outs vres.Outcomes
 	idx := 0
-	for n := 1; n <= maxN; n++ {
-		total := 1
-		for i := 0; i < n; i++ {
-			total *= 3
+	// weight schemes: least_connections looks at in-flight counts only, whatever weights the pool
+	// was configured with (they matter to weighted_round_robin); base loads: the same vector on
+	// top of a common load on both sides of every plausible per-backend bound (100 connections,
+	// 16-bit and larger counters), injected into the gauges
+	type variant struct {
+		weights string
+		base    int
+	}
+	variants := []variant{{"equal", 0}}
+	for _, w := range []string{"descending", "ascending"} {
+		variants = append(variants, variant{w, 0})
+	}
+	for _, b := range []int{99, 100, 101, 1000, 65535, 65536, 1 << 20} {
+		variants = append(variants, variant{"equal", b})
+	}
+	weightsOf := func(scheme string, n int) []int {
+		w := make([]int, n)
+		for i := range w {
+			switch scheme {
+			case "descending":
+				w[i] = []int{5, 2, 1, 1, 3, 1, 1, 1}[i]
+			case "ascending":
+				w[i] = []int{1, 3, 7, 2, 1, 4, 1, 1}[i]
+			}
 		}
-		for code := 0; code < total; code++ {
-			for mask := 0; mask < 1<<n; mask++ {
-				if mask == 1<<n-1 {
-					continue
-				}
-				idx++
-				if !vh.MyShard(idx) {
-					continue
-				}
-				vec := make([]int, n)
-				c := code
-				for i := 0; i < n; i++ {
-					vec[i] = c % 3
-					c /= 3
-				}
-				cases++
-				got, status := -1, 0
-				var gauges []int32
-				setupOK := true
-				vh.RunSeq(r, "C05/sequential", func(s *vrt.Sched) {
-					k := newKit(s, kitOpts{Strategy: "least_connections", N: n, PassiveThr: 1, Window: 1000})
-					// fill every backend to 2 in-flight requests, then release down to the vector
-					var hs []*held
-					for q := 0; q < 2*n; q++ {
-						hs = append(hs, k.startHeld("10.0.0.1"))
+		return w
+	}
+	for _, va := range variants {
+		for n := 1; n <= maxN; n++ {
+			if (va.weights != "equal" && (n < 2 || n > 3)) || (va.base != 0 && n > 2) {
+				continue
+			}
+			total := 1
+			for i := 0; i < n; i++ {
+				total *= 3
+			}
+			for code := 0; code < total; code++ {
+				for mask := 0; mask < 1<<n; mask++ {
+					if mask == 1<<n-1 {
+						continue
+					}
+					idx++
+					if !vh.MyShard(idx) {
+						continue
+					}
+					vec := make([]int, n)
+					c := code
+					for i := 0; i < n; i++ {
+						vec[i] = c % 3
+						c /= 3
+					}
+					cases++
+					got, status := -1, 0
+					var gauges []int32
+					setupOK := true
+					vh.RunSeq(r, "C05/sequential", func(s *vrt.Sched) {
+						k := newKit(s, kitOpts{Strategy: "least_connections", N: n, PassiveThr: 1, Window: 1000, Weights: weightsOf(va.weights, n)})
+						// fill every backend to 2 in-flight requests, then release down to the vector
+						var hs []*held
+						for q := 0; q < 2*n; q++ {
+							hs = append(hs, k.startHeld("10.0.0.1"))
+							evals++
+						}
+						for i := 0; i < n; i++ {
+							if k.stubs[i].inflight != 2 {
+								setupOK = false
+							}
+							for j := vec[i]; j < 2; j++ {
+								k.release(k.stubs[i])
+							}
+						}
+						for i := 0; i < n; i++ {
+							if mask&(1<<i) != 0 {
+								k.lb.MarkBackendUnhealthy(k.backendByName(fmt.Sprintf("b%d", i)), 1000*time.Second)
+							}
+						}
+						for i := 0; i < n; i++ {
+							b := k.backendByName(fmt.Sprintf("b%d", i))
+							b.ActiveConnections += int32(va.base)
+							gauges = append(gauges, b.GetActiveConnections())
+						}
+						got, status = servedIndex(k, "10.0.0.2")
 						evals++
+					})
+					desc := fmt.Sprintf("least_connections n=%d weights=%v in-flight %v (+%d on every backend) ejected-mask=%b", n, weightsOf(va.weights, n), vec, va.base, mask)
+					if !setupOK {
+						if va.weights == "equal" {
+							c05Viol(r, "C05/least_connections/fill-uneven", fmt.Sprintf("n=%d: 2n overlapping requests from an idle pool did not put 2 on every backend", n), n, nil)
+						} else {
+							c05Viol(r, "C05/least_connections/not-minimal/while-filling", fmt.Sprintf("%s: 2n overlapping requests from an idle pool did not put 2 on every backend: some request went to a backend that was not minimally loaded", desc), n, nil)
+						}
+						continue
+					}
+					min := 99
+					for i := 0; i < n; i++ {
+						if mask&(1<<i) == 0 && vec[i] < min {
+							min = vec[i]
+						}
+					}
+					outs.Add(fmt.Sprintf("n%d-min%d-%s-base%d", n, min, va.weights, va.base))
+					if sample == nil && n == 3 && mask == 1 {
+						sample = map[string]interface{}{"strategy": "least_connections", "in_flight": vec, "ejected_mask": mask, "served_by": got, "gauges": gauges}
 					}
 					for i := 0; i < n; i++ {
-						if k.stubs[i].inflight != 2 {
-							setupOK = false
-						}
-						for j := vec[i]; j < 2; j++ {
-							k.release(k.stubs[i])
+						if int(gauges[i]) != vec[i]+va.base {
+							c05Viol(r, "C05/least_connections/gauge-differs-from-in-flight", fmt.Sprintf("n=%d: backend b%d has %d requests in flight but its gauge reads %d", n, i, vec[i]+va.base, gauges[i]), n, nil)
 						}
 					}
-					for i := 0; i < n; i++ {
-						if mask&(1<<i) != 0 {
-							k.lb.MarkBackendUnhealthy(k.backendByName(fmt.Sprintf("b%d", i)), 1000*time.Second)
+					if got < 0 || mask&(1<<got) != 0 || vec[got] != min {
+						key := "C05/least_connections/not-minimal"
+						if got < 0 {
+							key = "C05/least_connections/nobody-picked"
 						}
+						c05Viol(r, key, fmt.Sprintf("%s: next request served by %d (status %d); minimal eligible load is %d", desc, got, status, min+va.base), n, map[string]interface{}{"vec": vec, "mask": mask, "weights": va.weights, "base": va.base})
 					}
-					for i := 0; i < n; i++ {
-						gauges = append(gauges, k.backendByName(fmt.Sprintf("b%d", i)).GetActiveConnections())
-					}
-					got, status = servedIndex(k, "10.0.0.2")
-					evals++
-				})
-				if !setupOK {
-					c05Viol(r, "C05/least_connections/fill-uneven", fmt.Sprintf("n=%d: 2n overlapping requests from an idle pool did not put 2 on every backend", n), n, nil)
-					continue
-				}
-				min := 99
-				for i := 0; i < n; i++ {
-					if mask&(1<<i) == 0 && vec[i] < min {
-						min = vec[i]
-					}
-				}
-				outs.Add(fmt.Sprintf("n%d-min%d", n, min))
-				if sample == nil && n == 3 && mask == 1 {
-					sample = map[string]interface{}{"strategy": "least_connections", "in_flight": vec, "ejected_mask": mask, "served_by": got, "gauges": gauges}
-				}
-				for i := 0; i < n; i++ {
-					if int(gauges[i]) != vec[i] {
-						c05Viol(r, "C05/least_connections/gauge-differs-from-in-flight", fmt.Sprintf("n=%d: backend b%d has %d requests in flight but its gauge reads %d", n, i, vec[i], gauges[i]), n, nil)
-					}
-				}
-				if got < 0 || mask&(1<<got) != 0 || vec[got] != min {
-					c05Viol(r, "C05/least_connections/not-minimal", fmt.Sprintf("least_connections n=%d in-flight %v ejected-mask=%b: next request served by %d (status %d); minimal eligible load is %d", n, vec, mask, got, status, min), n, map[string]interface{}{"vec": vec, "mask": mask})
 				}
 			}
 		}
 	}
-	r.AddScenario(vres.Scenario{Name: "least_connections-vectors", Engine: "H", Executions: cases, States: cases, Transitions: evals, Outcomes: outs.N(),
-		Bound: fmt.Sprintf("every in-flight vector in {0,1,2}^n x every ejected subset, n=1..%d, built from really overlapping requests", maxN), Exhaustive: true, Sample: sample,
+	r.AddScenario(vres.Scenario{Name: "least_connections-vectors" + viaSuffix(), Engine: "H", Executions: cases, States: cases, Transitions: evals, Outcomes: outs.N(),
+		Bound: fmt.Sprintf("every in-flight vector in {0,1,2}^n x every ejected subset, n=1..%d, built from really overlapping requests; for n=2..3 also under two unequal weight schemes; for n<=2 also on top of a common base load of 99, 100, 101, 1000, 65535, 65536 and 2^20 injected into the gauges", maxN), Exhaustive: true, Sample: sample,
 		Extra: map[string]interface{}{"wall_s": time.Since(start).Seconds()}})
 }
 
@@ -467,6 +517,16 @@ func TestVerifC05(t *testing.T) {
 		c05WRRFresh(r, 3, 6)
 		c05LeastConn(r, 3)
 	}
+	// the same contracts for strategies selected at run time instead of in the configuration
+	// (smaller pools): the distribution contract belongs to the strategy's name, not to the way
+	// it was selected
+	kitViaSwitch = true
+	if vh.MyShard(0) {
+		c05RoundRobin(r, 3)
+	}
+	c05WRRFresh(r, 2, 4)
+	c05LeastConn(r, 2)
+	kitViaSwitch = false
 	depth := 6
 	wvs := [][]int{{1, 2}, {3, 1}, {1, 2, 3}, {2, 2, 1}}
 	if th {
